@@ -1,4 +1,5 @@
 import GeoVerif.Proofs.F64Div
+import GeoVerif.Model.MathF
 import Mathlib.Data.Int.Log
 import Mathlib.Data.Rat.Floor
 /-!
@@ -477,4 +478,115 @@ theorem twoSum_abstract {u v s u' v'' du dv w : ℚ} (hu : Rep u) (hv : Rep v)
       rw [esum] at h6; exact hδ'.rn_eq h6
     exact ⟨by rw [e6]; ring, by rw [esum]; ring, hδ, e3, e4, e5⟩
 
+/-! ## the binary64 model -/
+
+theorem rep_two_zpow (k : ℤ) (hk : -1074 ≤ k) : Rep ((2:ℚ) ^ k) := ⟨1, k, by norm_num, hk, by simp⟩
+
+/-- a rounding does not exceed a power-of-two bound -/
+theorem RN.abs_le_zpow {z r : ℚ} (h : RN z r) (k : ℤ) (hk : -1074 ≤ k) (hz : |z| ≤ (2:ℚ) ^ k) : |r| ≤ (2:ℚ) ^ k := by
+  have hb := abs_le.mp hz
+  rw [abs_le]
+  constructor
+  · have := h.ge_of_ge_rep (rep_two_zpow k hk).neg hb.1; exact this
+  · exact h.le_of_le_rep (rep_two_zpow k hk) hb.2
+
+namespace F64
+
+/-- the value of a finite binary64 is representable (a property of *values*; the model's `fin s m e` is not normalised) -/
+def IsRep (a : F64) : Prop := a.isFinite = true ∧ Rep a.val
+
+theorem add_rn (a b : F64) (ha : a.isFinite = true) (hb : b.isFinite = true) (k : ℤ) (hk : -1074 ≤ k) (hk2 : k < 1024)
+    (hab : |a.val + b.val| ≤ (2:ℚ) ^ k) :
+    (a + b).isFinite = true ∧ RN (a.val + b.val) (a + b).val ∧ |(a + b).val| ≤ (2:ℚ) ^ k := by
+  obtain ⟨sa, ma, ea, rfl⟩ := exists_fin_of_isFinite a ha
+  obtain ⟨sb, mb, eb, rfl⟩ := exists_fin_of_isFinite b hb
+  obtain ⟨r, hr, hf⟩ := add_fin_isRN sa sb ma mb ea eb
+  have hle := RN.abs_le_zpow hr k hk hab
+  have hlt : |r| < (2:ℚ) ^ (1024:ℤ) := lt_of_le_of_lt hle (Dy.two_zpow_lt_iff.mpr hk2)
+  obtain ⟨h1, h2⟩ := hf hlt
+  exact ⟨h1, by rw [h2]; exact hr, by rw [h2]; exact hle⟩
+
+theorem sub_rn (a b : F64) (ha : a.isFinite = true) (hb : b.isFinite = true) (k : ℤ) (hk : -1074 ≤ k) (hk2 : k < 1024)
+    (hab : |a.val - b.val| ≤ (2:ℚ) ^ k) :
+    (a - b).isFinite = true ∧ RN (a.val - b.val) (a - b).val ∧ |(a - b).val| ≤ (2:ℚ) ^ k := by
+  obtain ⟨sa, ma, ea, rfl⟩ := exists_fin_of_isFinite a ha
+  obtain ⟨sb, mb, eb, rfl⟩ := exists_fin_of_isFinite b hb
+  obtain ⟨r, hr, hf⟩ := sub_fin_isRN sa sb ma mb ea eb
+  have hle := RN.abs_le_zpow hr k hk hab
+  have hlt : |r| < (2:ℚ) ^ (1024:ℤ) := lt_of_le_of_lt hle (Dy.two_zpow_lt_iff.mpr hk2)
+  obtain ⟨h1, h2⟩ := hf hlt
+  exact ⟨h1, by rw [h2]; exact hr, by rw [h2]; exact hle⟩
+
+theorem val_zero : (0 : F64).val = 0 := by show (F64.fin false 0 0).val = 0; exact val_fin_zero false 0
+
+theorem two_zpow_succ (k : ℤ) : (2:ℚ) ^ (k + 1) = 2 * (2:ℚ) ^ k := by rw [Dy.two_zpow_split]; norm_num; ring
+
+theorem bound_add {x y : ℚ} {a b K : ℤ} (hx : |x| ≤ (2:ℚ) ^ a) (hy : |y| ≤ (2:ℚ) ^ b) (ha : a < K) (hb : b < K) :
+    |x + y| ≤ (2:ℚ) ^ K := by
+  have h1 := Dy.two_zpow_le (show a ≤ K - 1 by omega)
+  have h2 := Dy.two_zpow_le (show b ≤ K - 1 by omega)
+  have h3 : (2:ℚ) ^ K = 2 * (2:ℚ) ^ (K - 1) := by
+    have := two_zpow_succ (K - 1); rwa [show K - 1 + 1 = K by ring] at this
+  have := abs_add_le x y
+  rw [h3]; linarith
+
+theorem bound_sub {x y : ℚ} {a b K : ℤ} (hx : |x| ≤ (2:ℚ) ^ a) (hy : |y| ≤ (2:ℚ) ^ b) (ha : a < K) (hb : b < K) :
+    |x - y| ≤ (2:ℚ) ^ K := by
+  have := bound_add hx (show |-y| ≤ (2:ℚ) ^ b by rwa [abs_neg]) ha hb
+  rwa [← sub_eq_add_neg] at this
+
+/-- **Knuth's TwoSum for the executable model of `Math::sum`**: for finite representable `u`, `v` with
+`|u|, |v| ≤ 2^1018` (no overflow in any of the six operations), both outputs are finite, the high word is the
+correctly rounded sum, the low word is representable, and `s + t = u + v` **exactly**. -/
+theorem twoSum_exact (u v : F64) (hu : IsRep u) (hv : IsRep v)
+    (hub : |u.val| ≤ (2:ℚ) ^ (1018:ℤ)) (hvb : |v.val| ≤ (2:ℚ) ^ (1018:ℤ)) :
+    (MathF.sum u v).1 = u + v ∧
+    (MathF.sum u v).1.isFinite = true ∧ (MathF.sum u v).2.isFinite = true ∧
+    RN (u.val + v.val) (MathF.sum u v).1.val ∧ Rep (MathF.sum u v).2.val ∧
+    (MathF.sum u v).1.val + (MathF.sum u v).2.val = u.val + v.val := by
+  obtain ⟨fu, ru⟩ := hu
+  obtain ⟨fv, rv⟩ := hv
+  -- the six operations
+  obtain ⟨f1, r1, b1⟩ := add_rn u v fu fv 1019 (by norm_num) (by norm_num)
+    (bound_add hub hvb (by norm_num) (by norm_num))
+  obtain ⟨f2, r2, b2⟩ := sub_rn (u + v) v f1 fv 1020 (by norm_num) (by norm_num)
+    (bound_sub b1 hvb (by norm_num) (by norm_num))
+  obtain ⟨f3, r3, b3⟩ := sub_rn (u + v) (u + v - v) f1 f2 1021 (by norm_num) (by norm_num)
+    (bound_sub b1 b2 (by norm_num) (by norm_num))
+  obtain ⟨f4, r4, b4⟩ := sub_rn (u + v - v) u f2 fu 1021 (by norm_num) (by norm_num)
+    (bound_sub b2 hub (by norm_num) (by norm_num))
+  obtain ⟨f5, r5, b5⟩ := sub_rn (u + v - (u + v - v)) v f3 fv 1022 (by norm_num) (by norm_num)
+    (bound_sub b3 hvb (by norm_num) (by norm_num))
+  obtain ⟨f6, r6, b6⟩ := add_rn (u + v - v - u) (u + v - (u + v - v) - v) f4 f5 1023 (by norm_num) (by norm_num)
+    (bound_add b4 b5 (by norm_num) (by norm_num))
+  obtain ⟨hw, _, hδ, _, _, _⟩ := twoSum_abstract ru rv r1 r2 r3 r4 r5 r6
+  -- t = 0 − w
+  have f0 : (0 : F64).isFinite = true := rfl
+  obtain ⟨f7, r7, _⟩ := sub_rn 0 ((u + v - v - u) + (u + v - (u + v - v) - v)) f0 f6 1023 (by norm_num) (by norm_num) (by
+    rw [val_zero, zero_sub, abs_neg]; exact b6)
+  rw [val_zero, zero_sub] at r7
+  have e7 : ((0 : F64) - ((u + v - v - u) + (u + v - (u + v - v) - v))).val = u.val + v.val - (u + v).val := by
+    rw [hw] at r7
+    have : Rep (-((u + v).val - (u.val + v.val))) := by
+      have e : -((u + v).val - (u.val + v.val)) = u.val + v.val - (u + v).val := by ring
+      rw [e]; exact hδ
+    rw [this.rn_eq r7]; ring
+  have hsum : MathF.sum u v = (u + v, if F64.ne (u + v) 0 = true then (0 : F64) - ((u + v - v - u) + (u + v - (u + v - v) - v)) else u + v) := rfl
+  rw [hsum]
+  by_cases hne : F64.ne (u + v) 0 = true
+  · simp only [hne, if_true]
+    exact ⟨trivial, f1, f7, r1, by rw [e7]; exact hδ, by rw [e7]; ring⟩
+  · have hne' : F64.ne (u + v) 0 = false := by simpa using hne
+    simp only [hne', Bool.false_eq_true, if_false]
+    have heq : F64.eq (u + v) 0 = true := by
+      unfold F64.ne at hne'; simpa using hne'
+    have hz : (u + v).val = 0 := by rw [(eq_fin_iff _ _ f1 f0).mp heq, val_zero]
+    refine ⟨trivial, f1, f1, r1, by rw [hz]; exact Rep.zero, ?_⟩
+    -- u + v rounds to 0, hence is 0
+    rw [hz] at r1 hδ ⊢
+    have hrep : Rep (u.val + v.val) := by simpa using hδ
+    have := hrep.rn_eq r1
+    linarith
+
+end F64
 end GeoVerif
